@@ -93,3 +93,34 @@ Fixpoint cum_steps (d : dstore) (h : list cop) (n : Z) : list Z :=
 
 Definition eval_crash (h : list cop) (ov ov2 : oview) : list (Z * Z * Z) * list Z :=
   (matching_from 0 (prefix_states absent (all_steps absent h)) ov ov2, cum_steps absent h 0).
+
+(** ---- the property's own verdict on a recovered store --------------------------------- *)
+
+Definition obs_of_view (ov : oview) : obs :=
+  mkObs (map (fun t => let '(i, n, _) := t in (i, n)) (ov_mb ov))
+        (map (fun t => let '(_, m, mb, u, _) := t in (mb, u, m)) (ov_lk ov))
+        (ov_msg ov).
+
+(** [a] = number of acknowledged operations of this store (a prefix of [h]),
+    [j] = number of operations of the one client command in flight.
+    Result: (lost links, lost messages, lost mailboxes, phantom links,
+    incomplete listed messages) — all empty iff [crash_spec_b]. *)
+Definition eval_spec (h : list cop) (a j : nat) (ov : oview)
+  : list okey * list Z * list Z * list okey * list Z :=
+  let dA := run_all absent (firstn a h) in
+  let cands := map (fun i => run_all absent (firstn (a + i) h)) (seq 0 (S j)) in
+  let dL := last cands dA in
+  let o := obs_of_view ov in
+  (lost_links dA dL o, lost_msgs dA dL o, lost_mailboxes dA dL o, phantom cands o, incomplete dL o).
+
+(** consistency of the spec with the model: every crash state of the model,
+    observed, satisfies it (checked for concrete workloads by [vm_compute]) *)
+Fixpoint spec_on_model_from (d : dstore) (h : list cop) : bool :=
+  match h with
+  | [] => crash_spec_b d d [d] (obs_of d)
+  | o :: r =>
+    let p := micro d o in
+    let dL := run_steps d p in
+    forallb (fun k => crash_spec_b d dL [d; dL] (obs_of (run_steps d (firstn k p)))) (seq 0 (S (length p)))
+    && spec_on_model_from dL r
+  end.
